@@ -372,6 +372,14 @@ static void do_op(const char *op, int a, int b, const char *text)
         long s = 0; for (size_t i = 0; i < n; i++) s += v[i];
         res_arr((long)n, s); free(v);
     }
+    else if (!strcmp(op, "item_add_all")) {
+        int *v = (int *)exact(sizeof(int) * b); for (int i = 0; i < b; i++) v[i] = i + 1;
+        sim_phase(1); int r = SIM_Item_add_all_bufferify(&h[a], v, b); sim_phase(0); res_int(r); free(v);
+    }
+    else if (!strcmp(op, "arr_sum_d")) {
+        double *v = (double *)exact(sizeof(double) * a); for (int i = 0; i < a; i++) v[i] = 0.5 * (i + 1);
+        sim_phase(1); int r = SIM_arr_sum_d(v, a); sim_phase(0); res_int(r); free(v);
+    }
     else if (!strcmp(op, "item_combine")) { sim_phase(1); int r = SIM_Item_combine(&h[a], &h[b]); sim_phase(0); res_int(r); }
     else if (!strcmp(op, "pass_item")) { sim_phase(1); int r = SIM_pass_item(h[a]); sim_phase(0); res_int(r); }
     else if (!strcmp(op, "vec_dot")) {
